@@ -1098,10 +1098,19 @@ pub fn main(a: &Args) {
         }
     }
     let opts = BnfOpts::default();
+    let mut rng_td = a.rng(4242);
     let mut i = 0;
     while i < n && rep.elapsed() < a.max_s {
         let big = i % 5 == 4;
         let o = if big { BnfOpts { max_nt: 5, max_t: 4, max_alts: 3, max_len: 4, ..opts } } else { opts };
+        if (prop == "C01" || prop == "C07") && i % 10 == 6 {
+            // an extra grammar of the top-down family; own PRNG stream, the main stream is what it was without it
+            let g2 = gen_topdown(&mut rng_td);
+            if g2.reduced() {
+                rep.count("topdown_family_grammars_generated", 1);
+                run_grammar(&g2, "topdown", &wd, &mut rep, prop, maxlen, &mut rng_td, 0);
+            }
+        }
         let g = if prop == "C03" && i % 10 == 9 {
             rep.count("ambiguous_prefix_nullable_tail_grammars", 1);
             gen_amb_tails(&mut rng)
